@@ -123,12 +123,15 @@ Step(e) ==
             \* a peer request may be refused while the chunk is live (e.g. remaining life below the
             \* minimum TTL): the statement only forbids serving it at or after the deadline
             heldFor == IF e.via = "peerreq" THEN FALSE ELSE e.c \in held
-            bad == (IF ReadOk(rec, e.t, heldFor, e.c, hit, IF (e.via = "export" \/ e.b = -8) /\ hit THEN rec[e.c].b ELSE e.b) /\ bytesOk THEN {}
+            \* under a moving clock a read within tol of the deadline may fall on either side of it
+            nearDl == tol > 0 /\ e.c \in Ids /\ rec[e.c].live /\ rec[e.c].dl - tol <= e.t /\ e.t <= rec[e.c].dl + tol
+            bad == (IF nearDl \/ (ReadOk(rec, e.t, heldFor, e.c, hit, IF (e.via = "export" \/ e.b = -8) /\ hit THEN rec[e.c].b ELSE e.b) /\ bytesOk) THEN {}
                     ELSE {IF hit THEN "C01.read-served-dead-or-wrong/" \o e.via ELSE "C01.read-missed-live/" \o e.via})
                    \cup DerivedClauses(e.proj, bound)
         IN Common(e, bad, rec, held, bound, owed, notified, slack)
     [] e.op = "list" ->
-        LET bad == (IF ListOk(rec, e.t, ArrSet(Arr(e.ids))) THEN {} ELSE {"C01.listing-serves-dead"})
+        LET nearAny == tol > 0 /\ \E c \in Ids : rec[c].live /\ rec[c].dl - tol <= e.t /\ e.t <= rec[c].dl + tol
+            bad == (IF nearAny \/ ListOk(rec, e.t, ArrSet(Arr(e.ids))) THEN {} ELSE {"C01.listing-serves-dead"})
                    \cup (IF \A c \in held : CLive(rec, e.t, c) => c \in ArrSet(Arr(e.ids)) THEN {} ELSE {"C29.list-missing-live-chunk"})
         IN Common(e, bad, rec, held, bound, owed, notified, slack)
     [] e.op = "mk" -> Common(e, {}, rec, held, bound, owed, notified, slack)
@@ -167,13 +170,21 @@ Step(e) ==
         IN Common(e, bad, r2, IF e.ok THEN held \cup {c} ELSE held, bd2, owed, notified, sl2)
     [] e.op = "tick" ->
         LET tc == e.t
-            expd == {c \in Ids : rec[c].live /\ rec[c].dl <= tc}
+            \* under a moving clock (tol > 0) a deadline within tol of the tick is ambiguous: the sweep may have read the clock just
+            \* before it and the audit just after.  Such a chunk counts as reaped iff it is gone from the projection; a deadline that
+            \* lies at least tol before the tick must be reaped (CleanupClauses), one that lies after it cannot be.
+            gone(c) == ~\E x \in Chunks(e.proj) : x[1] = c
+            expd == {c \in Ids : rec[c].live /\ (rec[c].dl <= tc - tol \/ (rec[c].dl <= tc + tol /\ tol > 0 /\ gone(c)))}
+            amb == IF tol = 0 THEN 0 ELSE
+                   Cardinality({x \in Chunks(e.proj) : x[2] > tc - tol /\ x[2] <= tc + tol})
+                   + Cardinality({x \in Locs(e.proj) : x[2] > tc - tol /\ x[2] <= tc + tol})
+                   + Cardinality({x \in Holders(e.proj) : x[3] > tc - tol /\ x[3] <= tc + tol})
             r2 == IF e.cleaned THEN [c \in Ids |-> IF c \in expd THEN [rec[c] EXCEPT !.live = FALSE] ELSE rec[c]] ELSE rec
             ow2 == IF e.cleaned THEN [c \in Ids |-> IF c \in expd THEN owed[c] + 1 ELSE owed[c]] ELSE owed
             bd2 == Refetch(bound, tc, pproj, e.proj)
             bad == (IF e.cleaned THEN CleanupClauses(e.proj, tc, bd2, rec) ELSE {})
                    \cup (IF \A x \in Pend(e.proj) : x[2] > tc - tol THEN {} ELSE {"C03.pending-fetch-outlives-manifest"})   \* every tick drops them
-                   \cup (IF e.cleaned /\ (e.a_local + e.a_loc + e.a_contacts > 0) THEN {"C05.audit-reports-expired-after-cleanup"} ELSE {})
+                   \cup (IF e.cleaned /\ (e.a_local + e.a_loc + e.a_contacts > amb) THEN {"C05.audit-reports-expired-after-cleanup"} ELSE {})
                    \cup DerivedClauses(e.proj, bd2)
         IN Common(e, bad, r2, held, bd2, ow2, notified, slack)
     [] e.op = "drain" ->
